@@ -236,6 +236,8 @@ def b_isinstance(ex, args, kw):
 def b_getattr(ex, args, kw):
     obj, name = args[0], args[1]
     if not isinstance(name, SStr):
+        if ex.find_external('getattr<dynamic>') is not None:
+            return ex.call_external('getattr<dynamic>', list(args), {})
         raise Unsupported('getattr with a non-constant name')
     if len(args) > 2:
         o = obj
